@@ -28,6 +28,8 @@ def check(m, run):
     keep = lambda c: c == '_bounding_box'
     rs.iv1(m, run, rs.GEOM, caches_filter=keep)
     run.floor('IV1.no-stale-cache', 150, 'geometry classes x entries x bounding box cache')
+    from . import c12
+    c12.iv5(m, run, keep=lambda key: 'box' in key)     # a container recomputes its box from its elements on every read: no aggregate box cache
     ag7(m, run)
     funcs = c01.evaluator_funcs(m)
     rl.ly1_canonical(m, run, funcs)
